@@ -111,6 +111,18 @@ def pmap(fn, items, workers=None, chunksize=1):
         return pool.map(fn, items, chunksize)
 
 
+def pmap_fresh(fn, items, workers=None):
+    """order-preserving parallel map in which every item is processed by a process of its own (spawned
+    interpreter, one job per process): nothing an earlier item left behind in module state can influence a later
+    one, so the complete in-process history of a finding is the item itself."""
+    items = list(items)
+    if not items:
+        return []
+    import multiprocessing as mp
+    with mp.get_context("spawn").Pool(min(workers or WORKERS, len(items)), maxtasksperchild=1) as pool:
+        return pool.map(fn, items, 1)
+
+
 def repo_head():
     try:
         return subprocess.run(["git", "-C", REPO, "rev-parse", "--short", "HEAD"], capture_output=True,
